@@ -48,6 +48,16 @@ CLAIMED = {
    note="Trusted: Go type checker, go/ssa, COW field table and mutator table in checker/c10.go.",
    technique="effect/ownership analysis of node field writes, lockset and lock-pairing dataflow, path rules",
    ref="DESIGN.md §3 C10"),
+ "C12": dict(
+   text="Static decision of the structural clauses behind SQL integrity constraints: checkConstraints post-dominates every update of the row image before the row sink; computed assignments consult NOT NULL; update-style assignments (UPDATE and ON CONFLICT, cross-checked as siblings) cannot touch primary key columns; PK and unique-index probes go through the recording read layer before the write; failed statements cancel the transaction; unique index creation requires an emptiness probe.",
+   note="Trusted: Go type checker, go/ssa, tables in checker/c12.go. Not covered: constraint satisfaction over histories/interleavings (rests on C05).",
+   technique="must-pass-through from every map update to the sink on the SSA CFG, sibling cross-check, guard dominance",
+   ref="DESIGN.md §3 C12"),
+ "C13": dict(
+   text="Static decision of the structural clauses behind SQL transaction atomicity: single commit site of the store transaction, closed transactions refused, every cancel path (ROLLBACK, session rollback, every function dropping sessions) reaches the store Cancel, SQL writes only through the SQLTx wrappers of one store transaction, ROLLBACK TO SAVEPOINT must reach the store write-set (known finding: it does not).",
+   note="Trusted: Go type checker, go/ssa, tables in checker/c13.go. Not covered: isolation between sessions (C05), pgsql front-end.",
+   technique="who-may-call over the program, must-pass-through on the SSA CFG, call-graph effect (field-write) reachability",
+   ref="DESIGN.md §3 C13"),
  "C14": dict(
    text="Static decision of the clauses behind safe value-log truncation: lock pairing in the store (ExportTx), value-log fetch/release pairing, DiscardUpto only on fetched value logs or the index's own logs and never with embedded values, forward walk inclusive of the committed frontier, chunk deletion strictly below the offset's chunk, SQL+document catalog copied and committed before truncation through a single entry point, truncated values map to io.EOF / digest export.",
    note="Trusted: Go type checker, go/ssa, frozen tables in checker/c14.go. Not covered: the tombstone arithmetic of TruncateUptoTx.",
